@@ -61,6 +61,47 @@ def mirror(ctx, r):
         else:
             r.notes.append(f"VmType for {ty}: not a modelled shape")
     r.count("hand-written VmType implementations", n, 8, HB)
+    # every way out of a from_vm has taken the value off the stack (a length or type peek does not)
+    n_exits = 0
+    for file in (HB, FB):
+        fitems = ctx.file_items(file)
+        if fitems is None:
+            r.missing(file)
+            continue
+        short = file.split("/")[-1]
+        for impl in q.find_impls(fitems):
+            if not (impl.get("trait") or "").startswith("Vm"):
+                continue
+            for f in impl["items"]:
+                if f["k"] != "Fn" or f["name"] not in ("from_vm", "from_vm_unsafe") or f.get("body") is None:
+                    continue
+
+                def consumes(node):
+                    for x in q.walk(node):
+                        if x["k"] == "MethodCall" and q.show(x["recv"]) == "vm" and x["m"].startswith(("pop", "deconstruct")):
+                            return True
+                        if x["k"] == "Call":
+                            fn = q.show(x["f"])
+                            if fn.endswith(("::from_vm", "::from_vm_unsafe")) or ".pop" in fn or ".deconstruct" in fn:
+                                return True
+                    return False
+
+                exits = [x for x in q.walk(f["body"]) if x["k"] == "Return"]
+                for ex in exits:
+                    n_exits += 1
+                    doms = []
+                    for b in q.walk(f["body"]):
+                        if b["k"] == "Block":
+                            for i, st_ in enumerate(b["stmts"]):
+                                if any(y is ex for y in q.walk(st_)):
+                                    doms.extend(b["stmts"][:i])
+                    ok = any(consumes(d) for d in doms) or (ex.get("e") is not None and consumes(ex["e"]))
+                    r.ob(ok, f"{short}:VmType for {impl['self_ty']}:from_vm:exit-without-consuming", file, ex["l"],
+                         f"from_vm of {impl['self_ty']} returns at line {ex['l']} without having popped or deconstructed the value it converts (array_len / top only look): the value stays on the VM stack and the next argument or element the host unpacks reads it instead",
+                         sample=f"{impl['self_ty']}: early exit of from_vm has consumed the value")
+                n_exits += 1
+                r.ob(consumes(f["body"]), f"{short}:VmType for {impl['self_ty']}:from_vm:never-consumes", file, f["l"], f"from_vm of {impl['self_ty']} never takes a value off the VM stack", sample=f"{impl['self_ty']}: from_vm consumes")
+    r.count("from_vm exits", n_exits, 16, HB)
     # tuples (macro): textual shape of the macro body
     mac = next((it for it, _ in q.iter_items(items) if it["k"] == "ItemMacro" and it.get("name") == "macro_rules" and "deconstruct_struct" in it.get("tokens", "") and "from_vm" in it.get("tokens", "")), None)
     if mac is None:
